@@ -550,12 +550,15 @@ theorem play_ok_raw (e : Env) (s : St) (lh : Int) (b : Block) (h : (play e s lh 
       by_cases h3 : parentMissing e s.pool [] b.txs = true
       · rw [if_pos h3] at h; cases h
       · rw [if_neg h3] at h ⊢
-        simp only at h ⊢
-        unfold playUndone playEvict
-        generalize applyBlockTxs e lh b.prop _ b.txs _ = res at h ⊢
-        rcases res with _ | ⟨s2, r⟩
-        · cases h
-        · cases r <;> first | exact ⟨s2, rfl, rfl⟩ | cases h
+        by_cases h4 : staleMember e s.pool [] b.txs = true
+        · rw [if_pos h4] at h; cases h
+        · rw [if_neg h4] at h ⊢
+          simp only at h ⊢
+          unfold playUndone playEvict
+          generalize applyBlockTxs e lh b.prop _ b.txs _ = res at h ⊢
+          rcases res with _ | ⟨s2, r⟩
+          · cases h
+          · cases r <;> first | exact ⟨s2, rfl, rfl⟩ | cases h
 
 /-- when no evicted transaction is in the block (the block brings the pending transactions its pending members depend
 on), every pending transaction of the block is skipped -/
@@ -592,6 +595,24 @@ theorem play_ok_parents (e : Env) (s : St) (lh : Int) (b : Block) (h : (play e s
       by_cases h3 : parentMissing e s.pool [] b.txs = true
       · rw [if_pos h3] at h; cases h
       · simpa using h3
+
+/-- an accepted block has no pending member that read a version an earlier transaction of the block overwrote (repaired
+`processUnconfirmTxs`, second pass) -/
+theorem play_ok_noStale (e : Env) (s : St) (lh : Int) (b : Block) (h : (play e s lh b).2 = .ok) :
+    staleMember e s.pool [] b.txs = false := by
+  unfold play at h
+  by_cases h1 : b.pre ≠ some s.pointer
+  · rw [if_pos h1] at h; cases h
+  · rw [if_neg h1] at h
+    by_cases h2 : blockHasDupInput e b.txs = true
+    · rw [if_pos h2] at h; cases h
+    · rw [if_neg h2] at h
+      by_cases h3 : parentMissing e s.pool [] b.txs = true
+      · rw [if_pos h3] at h; cases h
+      · rw [if_neg h3] at h
+        by_cases h4 : staleMember e s.pool [] b.txs = true
+        · rw [if_pos h4] at h; cases h
+        · simpa using h4
 
 /-- what `parentMissing = false` says: a cited pending transaction stands earlier in the block -/
 theorem parentMissing_false (e : Env) (pool : List Nat) (before txs : List Nat)
